@@ -35,6 +35,8 @@ struct Ctx {
     fresh: HashMap<Vec<u8>, Vec<u8>>, // action prefix (5 bytes) -> fresh tid
     secrets: Vec<u32>,
     streams: Vec<Option<UnboundedReceiver<SocketAddr>>>,
+    /// streams whose receiver the caller dropped at once (fire-and-forget searches): (stream, action id of its search)
+    dropped: Vec<(usize, Option<u64>)>,
     // ---- what the last op did (structured), for the oracles and the network simulator
     last_sent: Vec<(SocketAddr, Option<Message>, usize, bool)>,
     last_yields: Vec<(usize, SocketAddr)>,
@@ -66,6 +68,8 @@ struct LookInfo {
     endgame_at: Option<u128>,
     /// every token an answer under an outstanding id carried, with its source
     tokens_all: Vec<(SocketAddr, Vec<u8>)>,
+    /// the caller dropped the stream at once: nothing it is sent can be observed
+    dropped: bool,
     any_sent_ok: bool,
     /// some datagram of the search could not be sent (C02's premise does not hold for it)
     any_send_failed: bool,
@@ -237,6 +241,18 @@ impl Ctx {
                 }
             }
         }
+        // a dropped stream's end is seen as its search leaving the handler
+        let live = self.h.lookup_action_ids();
+        let mut still = vec![];
+        for (sid, aid) in std::mem::take(&mut self.dropped) {
+            match aid {
+                Some(a) if live.contains(&a) => still.push((sid, aid)),
+                // the search is gone (or never stayed: no good node to ask)
+                _ => { self.last_closed.push(sid); closed.push(sid.to_string()); }
+            }
+        }
+        self.dropped = still;
+        closed.sort_by_key(|x| x.parse::<usize>().unwrap_or(0));
         let t0 = self.clock.t0_std();
         let timers: Vec<String> = entries.iter().map(|(d, _, t)| format!("{}:{}", d.duration_since(t0).as_nanos(), self.task_str(t))).collect();
         let out = format!("{res} | sent=[{}] yield=[{}] closed=[{}] timers=[{}]", sends.join(" ; "), yields.join(","), closed.join(","), timers.join(","));
@@ -276,7 +292,7 @@ pub async fn exec_op(ctx: &mut Option<Ctx>, req: &str, st: &mut Stats) -> (Strin
         let sock = MemSocket::new(local);
         if let Some(f) = kv(&w, "fail") { if f != "-" { for a in f.split(',') { sock.fail.lock().unwrap().insert(parse_addr(a).unwrap()); } } }
         let h = VHandler::new(id_of(&me), sock.clone(), ro, port).unwrap();
-        let mut c = Ctx { h, sock, clock, me, names: vec![], known: HashSet::new(), fresh: HashMap::new(), secrets: vec![], streams: vec![], last_sent: vec![], last_yields: vec![], last_closed: vec![], ro, v6, announce_port: port, looks: vec![], issued: vec![], store: HashMap::new() };
+        let mut c = Ctx { h, sock, clock, me, names: vec![], known: HashSet::new(), fresh: HashMap::new(), secrets: vec![], streams: vec![], dropped: vec![], last_sent: vec![], last_yields: vec![], last_closed: vec![], ro, v6, announce_port: port, looks: vec![], issued: vec![], store: HashMap::new() };
         c.note_secrets(true);
         // C19: the long-lived activities hold action ids that were *drawn* from the generator — none of the ids
         // it will hand out to later activities (round-4 seed C19: refresh and bootstrap got the fixed ids 0 and 1
@@ -308,9 +324,19 @@ pub async fn exec_op(ctx: &mut Option<Ctx>, req: &str, st: &mut Stats) -> (Strin
             (req.to_string(), c.finish(&ok.to_string()))
         }
         "lookup" => {
+            let before = c.h.lookup_action_ids();
             let rx = c.h.start_lookup(id_of(&unhex(w[1]).unwrap()), w[2] == "1").await;
-            c.streams.push(Some(rx));
-            let sid = c.streams.len() - 1;
+            let sid = c.streams.len();
+            if w.get(3) == Some(&"drop") {
+                // the caller does not keep the stream (an announce it does not wait for)
+                drop(rx);
+                c.streams.push(None);
+                let aid = c.h.lookup_action_ids().into_iter().find(|a| !before.contains(a));
+                c.dropped.push((sid, aid));
+                st.hit("lookup_dropped_stream");
+            } else {
+                c.streams.push(Some(rx));
+            }
             st.hit("lookup");
             // C19: concurrently live activities have pairwise distinct action ids, none the refresh's
             let ids = c.h.lookup_action_ids();
@@ -762,7 +788,7 @@ fn check_op(c: &mut Ctx, w: &[&str], before: &(HashSet<SocketAddr>, HashSet<Sock
 fn check_lookups(c: &mut Ctx, w: &[&str], case: usize, line: usize, st: &mut Stats) {
     let now = c.clock.now_ns();
     if w[0] == "lookup" {
-        c.looks.push(LookInfo { ih: unhex(w[1]).unwrap(), announce: w[2] == "1", started: now, ..Default::default() });
+        c.looks.push(LookInfo { ih: unhex(w[1]).unwrap(), announce: w[2] == "1", started: now, dropped: w.get(3) == Some(&"drop"), ..Default::default() });
     }
     // the response being delivered, if any
     let delivered: Option<(Vec<u8>, SocketAddr, Response)> = if w[0] == "in" && w[3] == "r" {
@@ -796,7 +822,7 @@ fn check_lookups(c: &mut Ctx, w: &[&str], case: usize, line: usize, st: &mut Sta
         let n = c.last_yields.iter().filter(|(s, _)| *s == sid).count();
         // (C02 presupposes that the search's datagrams can be sent: a round whose sends all fail makes the
         // code give up its outstanding queries and go to the end-game, an answer still on its way is then dropped)
-        if n != r.values.len() && !c.looks[sid].any_send_failed {
+        if n != r.values.len() && !c.looks[sid].any_send_failed && !c.looks[sid].dropped {
             st.fail(case, line, &format!("[C02] an accepted response carried {} peers but the search yielded {n}", r.values.len()));
         }
     }
@@ -977,7 +1003,10 @@ async fn run_scenario(ctx: &mut Option<Ctx>, req: &str, case: usize, out: &mut V
         if steps > 600 { st.hit("scenario_step_limit"); break; }
         // start searches
         if looks_started < nlooks && (looks_started == 0 || rng.chance(1, 3)) {
-            run!(format!("lookup {} {} @{t}", hex(&ih), ann as u8));
+            // one announcing search in four is fire-and-forget: the caller drops the stream at once (round-5 seed
+            // C02: a failed delivery to the stream made the search skip the rest of the answer)
+            if ann && rng.chance(1, 4) { run!(format!("lookup {} 1 drop @{t}", hex(&ih))); }
+            else { run!(format!("lookup {} {} @{t}", hex(&ih), ann as u8)); }
             looks_started += 1;
         }
         // react to the queries just sent
@@ -1141,7 +1170,7 @@ async fn run_scenario(ctx: &mut Option<Ctx>, req: &str, case: usize, out: &mut V
             let mut y: Vec<String> = li.yielded.iter().map(addr_str).collect();
             let mut v: Vec<String> = li.accepted_values.iter().map(addr_str).collect();
             y.sort(); v.sort();
-            if y != v { st.fail(case, out.len().saturating_sub(1), "[C02] the search stream did not deliver every peer of every answer once per occurrence"); }
+            if y != v && !li.dropped { st.fail(case, out.len().saturating_sub(1), "[C02] the search stream did not deliver every peer of every answer once per occurrence"); }
             st.hit("c02_checked");
         }
     }
